@@ -93,6 +93,36 @@ extern void rc_check_zin(const rc_rel_t *rin, const double complex *min,
 	const double complex *zin, const double complex *z0,
 	double cond_max, rc_result_t *res);
 
+/* ---- structured networks given by linear constraints on the port state ---- */
+#define RC_MAXTERMS 12
+typedef struct rc_cterm {
+    char q;		/* 'v' or 'i' */
+    int p;		/* port, 0-based */
+    char c[8];		/* coefficient symbol: 1, -1, eK, -eK */
+} rc_cterm_t;
+
+typedef struct rc_net {
+    char name[16];
+    int n, nelem, neq;
+    char ekind[8];	/* per element: 'z' impedance, 'y' admittance */
+    int nterms[RC_MAXN];
+    rc_cterm_t eq[RC_MAXN][RC_MAXTERMS];
+} rc_net_t;
+
+/* network of that name with n ports; NULL if the table has none */
+extern const rc_net_t *rc_network(const char *name, int n);
+
+/*
+ * rc_matrix_of_network: the matrix of type rel of the network whose port
+ * states are exactly the solutions of its constraints (element values e[]),
+ * built from the definitions alone: for every unit independent tuple solve
+ * {constraints, ind(state) = e_j} for the state and read off dep(state).
+ * Returns a condition estimate of that solve (HUGE_VAL: the representation
+ * does not exist for this network).  2 n <= RC_MAXN.
+ */
+extern double rc_matrix_of_network(const rc_net_t *net, const double complex *e,
+	const rc_rel_t *rel, const double complex *z0, double complex *m);
+
 /* own dense complex inverse (Gauss-Jordan, partial pivoting); returns the
  * 1-norm condition number or HUGE_VAL if singular */
 extern double rc_invert(int n, const double complex *a, double complex *inv);
